@@ -12,6 +12,7 @@ mod mdmod;
 mod rulesmod;
 mod updatemod;
 mod util;
+mod yamlmod;
 
 fn main() {
     util::silence_panics();
@@ -22,6 +23,7 @@ fn main() {
         "diff-probe" => diffmod::probe(&args),
         "rules-replay" => rulesmod::replay(&args),
         "md-replay" => mdmod::replay(&args),
+        "yaml-replay" => yamlmod::replay(&args),
         "config-replay" => configmod::replay(&args),
         "update-replay" => updatemod::replay(&args),
         "gen-replay" => genmod::replay(&args),
